@@ -56,12 +56,13 @@ CHECKS = {
             "break/continue, functions, calls, return, records, arrays) is rendered in python, javascript, typescript, java, go, c and php; lian lowers "
             "each rendering and the GIR is executed by the same reference interpreter; the out() trace must equal the K interpreter's and no executed "
             "instruction or operand column may be outside the shared vocabulary.",
-            "Trusted base: harness/girsem.py (common GIR semantics), harness/gen_core.py renderers (syntactic; Go/PHP/TypeScript not cross-checked "
-            "against a native toolchain on this image) and the K interpreter.",
+            "Trusted base: harness/girsem.py (common GIR semantics), the K interpreter and harness/gen_core.py renderers (self-checked natively: "
+            "CPython on every program, node / gcc / javac on a sample; Go, PHP and TypeScript have no toolchain on this image).",
             "DESIGN.md 3/C02"),
     "C08": ("Hypothesis-generated value programs; CPython ground truth over all 2^k branch valuations vs lian's P3 state sets (cover relation); metamorphic hostile-literal substitution",
-            "For generated Python programs (constants, arithmetic, concatenation, allocation, fields, elements, aliases, helper calls, branches, "
-            "one-iteration loops) every concrete value of every executed definition must be covered by the abstract state set of that definition "
+            "For generated Python programs (constants incl. blank runs, arithmetic, concatenation, allocation, fields, lists of 2-6 elements, aliases, "
+            "fixed helpers and generated callees that write the fields of their parameter through aliases / under branches / on both sides of an "
+            "early return, branches, one-iteration loops) every concrete value of every executed definition must be covered by the abstract state set of that definition "
             "(equal constant / state of the object's class / explicit unknown). Metamorphic clause: substituting one string constant by a hostile one "
             "must not change the abstract values of unrelated definitions, the outcome or the number of statement visits, and the hostile constant "
             "itself must be covered.",
@@ -76,23 +77,25 @@ CHECKS = {
             "DESIGN.md 3/C09"),
     "C12": ("metamorphic testing: Hypothesis-generated base projects x sequences of meaning-preserving edits; call sites, bindings and taint flows compared after mapping positions back",
             "Generated Python projects (call chains, class + method, parameter sources, sink calls, unique identifiers) are edited by 1-3 of: blank / "
-            "comment lines, consistent renaming of a local, parameter, function, class or method, no-op insertion, swapping adjacent top-level "
-            "definitions, moving a function to a new file and importing it. Both versions run through the whole pipeline; the call sites of all "
+            "comment lines, consistent renaming of a local, parameter, function, class or method (also of a local that shadows a module-level "
+            "variable, renamed inside its function only), no-op insertion, swapping adjacent top-level definitions, moving a function to a new "
+            "file and importing it (also out of a second file that a third one imports it from). Both versions run through the whole pipeline; the call sites of all "
             "stored call paths, the P1 binding of every identifier occurrence and the (source, sink) flows must be identical after the line / "
             "unit / name mapping of the edit is applied.",
             "Python frontend only; bindings of the moved function's own name are excluded for the move edit; observation helpers are shared "
             "with C05 (harness/c05_lian.py).",
             "DESIGN.md 3/C12"),
     "C13": ("parameterised adversarial program families with swept size; deterministic step counters and a growth bound between consecutive sizes; forked children under watchdog and memory limit",
-            "Twenty program families (recursion, mutual-recursion rings, higher-order self-application, cyclic imports, cyclic object graphs, nested loops, "
-            "call chains with 2-3 call sites per function, branch / alias / literal / assignment chains, multi-valued operand chains, hostile constants), "
+            "Twenty-two program families (recursion, mutual-recursion rings, higher-order self-application, cyclic imports, cyclic object graphs, nested loops, "
+            "call chains with 2-3 call sites per function, branch / alias / literal / assignment chains, multi-valued operand chains, hostile constants, dead-end dataflow regions before a sink), "
             "each with and without --enable-p2, sizes 2..16 (quick) / ..64 (thorough), plus Hypothesis-drawn compositions of two families. Every run is a "
             "forked child with address-space limit and watchdog; wrapped counters (statement visits in P2/P3, frames, taint work-list pops, state-space "
-            "growth) must satisfy counter(b) <= (b/a)^3.5 * counter(a) for consecutive sizes, and the run must end within the watchdog.",
+            "growth) must satisfy counter(b) <= (b/a)^3.5 * counter(a) for consecutive sizes (node expansions of the taint path search: degree 5, "
+            "aborted at 20x the step budget), and the run must end within the watchdog.",
             "Non-termination is only observable as a budget overrun; polynomial growth is decided on the wrapped counters for the stated families, Python only.",
             "DESIGN.md 3/C13"),
     "C14": ("generated and corpus projects analysed in separate processes under different hash seeds, repetitions, predecessor projects and workspace locations (incl. another filesystem); byte / table comparison",
-            "Each project (Hypothesis-generated name-rich Python / JavaScript projects and repository corpus files) is analysed by `lian run` in six fresh "
+            "Each project (Hypothesis-generated name-rich Python / JavaScript projects incl. star imports and imports with two candidate modules, and repository corpus files) is analysed by `lian run` in six fresh "
             "processes: hash seeds 0 / 1 / drawn, twice into the same forced workspace, after a different project in that workspace, into a workspace at "
             "another path and on tmpfs. Files under frontend/ semantic_p*/ taint/ must be byte-identical for a shared workspace path and equal after "
             "loading and workspace-prefix normalisation otherwise.",
@@ -106,7 +109,7 @@ CHECKS = {
             "Normal forms per family are the harness' reading of what callers observe; histories end at a fault; three loader families are covered by real runs only.",
             "DESIGN.md 3/C15"),
     "C16": ("model-based testing of DataModel / GIRBlockViewer: Hypothesis-generated operation sequences against a list-of-(label, dict) model, all queries compared after every step",
-            "Operation sequences (all construction forms, modify_element / row / column, append, remove_rows, rename / set columns, fillna, reset_index, "
+            "Operation sequences (all construction forms, modify_element / row / column, append, remove_rows, rename (one or several columns at once, incl. swaps and shifts) / set columns, fillna, reset_index, "
             "slice, clone, sub-table continuation) over small tables with duplicates and missing values and over GIR-like tables with block markers; after "
             "every step (in drawn check order, with deliberately unchecked steps) every row / column / equality-index / mask / block query and every "
             "GIRBlockViewer query is compared with a scan of the model.",
@@ -123,7 +126,8 @@ CHECKS = {
             "Projects of 2-4 Python (+ JavaScript / Java) files with called and never-called methods, each holding its own parameter->sink pair, are analysed "
             "under generated *entry.yaml rule sets (empty, %unit_init only, method lists, lang / unit_name / unit_path / attrs / id restrictions, duplicates, "
             "several files and directories, malformed files). The saved entry set, the roots and analysed methods of P3 and the reported flows must be "
-            "exactly what a reference matcher written from the rule fields selects and what is reachable from it.",
+            "exactly what a reference matcher written from the rule fields selects and what is reachable from it; the frames analysed while each "
+            "single root is processed must cover the by-construction closure of that root.",
             "The reference matcher models substring matching of unit_name / unit_path as the code documents it; only `from m import f` imports are generated.",
             "DESIGN.md 3/C20"),
 }
